@@ -19,7 +19,7 @@ PROP = "C09"
 THEOREMS = {"Artap.Props.C09": [
     "C09_generate_exact", "C09_nsga2_bookkeeping", "C09_pso_epsmoea_bookkeeping", "C09_nsga2_elitism",
     "C09_single_objective_best_monotone", "C09_pop_acceptance_size", "C09_pop_acceptance_cases",
-    "C09_epsmoea_population_size"]}
+    "C09_pop_acceptance_total", "C09_epsmoea_population_size", "C09_no_failures_fresh"]}
 AXIOMS_OK = []
 TRUSTED = [
     "Coq 8.16.1 kernel, vm_compute for model evaluation (no native_compute)",
